@@ -22,3 +22,7 @@ open GoSQLXModel
 #print axioms Props.C16.payload_dangerous
 #print axioms Props.C16.payload_union_null
 #print axioms Props.C16.benign_silent
+#print axioms Props.C16.threshold_only_removes
+#print axioms Props.C16.nothing_below_threshold
+#print axioms Props.C16.threshold_applied_twice
+#print axioms Props.C16.counters_below_threshold_zero
